@@ -394,7 +394,22 @@ func mrun(args []string) error {
 		kinds = append(kinds, kind)
 	}
 	for i := 0; i < *nh; i++ {
-		switch i % 6 {
+		switch i % 7 {
+		case 6:
+			// malformed lines (nothing that reads as "type name") of every length and alphabet: ASCII, accented, CJK, emoji,
+			// invalid UTF-8, mixtures; at top level or inside a dependency; LF or CRLF
+			alpha := [][]string{{"x", "_", "9", "-"}, {"é", "ü", "ñ"}, {"温", "度", "計"}, {"😀", "🚗"}, {"\xff", "\xc3", "\x80"}, {"a", "é", "温", "😀", "\xfe"}}[r.Intn(6)]
+			var sb strings.Builder
+			for k, n := 0, []int{1, 7, 20, 40, 63, 64, 65, 100, 200, 1000}[r.Intn(10)]; k < n; k++ {
+				sb.WriteString(alpha[r.Intn(len(alpha))])
+			}
+			line := sb.String()
+			nl := []string{"\n", "\r\n"}[r.Intn(2)]
+			if r.Intn(2) == 0 {
+				emit("malformed-line", []byte("int32 ok"+nl+line+nl+"int32 after"+nl))
+			} else {
+				emit("malformed-line", []byte("pkg/Dep d"+nl+"===="+nl+"MSG: pkg/Dep"+nl+"int32 ok"+nl+line+nl))
+			}
 		case 0:
 			emit("self-cycle", []byte(renderDef(r, genGraph(r, "self"))))
 		case 1:
